@@ -542,6 +542,137 @@ func c16InvalRound(t *testing.T, run *vlib.Run, round int) {
 			}
 		}
 	}
+	// ---- scripted: the update's mutation reaches a node's feed BEHIND A SEQUENCE GAP. Both nodes hold the revision in
+	// their caches; a lower sequence is reserved and not used yet, so each change cache parks the update's mutation as
+	// pending; the reserved sequence is then released and the pending mutation is applied. "Come through the mutation
+	// feed" includes this path: reads that start after the change cache moved past the update must not see old channels.
+	for si := 0; si < 2; si++ {
+		ds := newDoc(fmt.Sprintf("r%dg%d", round, si))
+		d.db.WaitForPendingChanges(t)
+		for k := 1; k <= 2; k++ {
+			seq, ok, _ := applyUpdate(ds, k, true)
+			if !ok || !waitFeed(ds, k, seq) {
+				break
+			}
+		}
+		if ds.seen[0].Load() != 2 || ds.seen[1].Load() != 2 {
+			run.Inconclusive("invalidation gap script: setup updates failed")
+			continue
+		}
+		// make the revision resident on the other node always, on the writer node in one of the two scripts (there the
+		// writer's own pre-save removal drops it again unless a reader re-caches it, which the second script leaves out)
+		resident := []int{1}
+		if si == 0 {
+			resident = []int{0, 1}
+		}
+		for _, ni := range resident {
+			if _, err := nodes[ni].coll.revisionCache.Get(nodes[ni].ctx, ds.id, ds.rev, RevCacheDontLoadBackupRev); err != nil {
+				run.Inconclusive("invalidation gap script: could not make the revision resident")
+			}
+		}
+		hold, herr := d.db.sequences.nextSequence(ctx)
+		if herr != nil {
+			run.Inconclusive("invalidation gap script: could not reserve a sequence")
+			continue
+		}
+		k := 3
+		seq, ok, _ := applyUpdate(ds, k, true)
+		if !ok {
+			_ = d.db.sequences.releaseSequence(ctx, hold)
+			continue
+		}
+		if seq <= hold {
+			run.Inconclusive("invalidation gap script: the update did not get a sequence above the reserved one")
+			_ = d.db.sequences.releaseSequence(ctx, hold)
+			continue
+		}
+		// wait until both change caches hold the update's mutation as pending behind the gap
+		pendingOn := func(nd *node) bool {
+			c := nd.db.changeCache
+			c.lock.RLock()
+			defer c.lock.RUnlock()
+			if c.nextSequence > hold {
+				return false
+			}
+			for _, e := range c.pendingLogs {
+				if e.Sequence == seq {
+					return true
+				}
+			}
+			return false
+		}
+		deadline := time.Now().Add(20 * time.Second)
+		gapOK := false
+		for time.Now().Before(deadline) {
+			if pendingOn(nodes[0]) && pendingOn(nodes[1]) {
+				gapOK = true
+				break
+			}
+			time.Sleep(200 * time.Microsecond)
+		}
+		if err := d.db.sequences.releaseSequence(ctx, hold); err != nil {
+			run.Inconclusive("invalidation gap script: release failed")
+			continue
+		}
+		if !gapOK {
+			run.Inconclusive("invalidation gap script: the update's mutation was not observed pending behind the reserved sequence on both nodes")
+			continue
+		}
+		if !waitFeed(ds, k, seq) {
+			continue
+		}
+		run.Count("scripted_histories", 1)
+		run.Count("scripted_histories_update-behind-sequence-gap", 1)
+		for _, ni := range []int{0, 1} {
+			nd := nodes[ni]
+			for _, kind := range []string{"peek", "cache-get-rev", "revision-channels", "getrev-rev", "cache-getactive"} {
+				seen := int(ds.seen[ni].Load())
+				var chs base.Set
+				var err error
+				switch kind {
+				case "peek":
+					rev, found := nd.coll.revisionCache.Peek(nd.ctx, ds.id, ds.rev)
+					if !found {
+						continue
+					}
+					chs = rev.Channels
+				case "cache-get-rev":
+					var rev DocumentRevision
+					rev, err = nd.coll.revisionCache.Get(nd.ctx, ds.id, ds.rev, RevCacheDontLoadBackupRev)
+					chs = rev.Channels
+				case "cache-getactive":
+					var rev DocumentRevision
+					rev, err = nd.coll.revisionCache.GetActive(nd.ctx, ds.id)
+					chs = rev.Channels
+				case "getrev-rev":
+					var rev DocumentRevision
+					rev, err = nd.coll.GetRev(nd.ctx, ds.id, ds.rev, true, nil)
+					chs = rev.Channels
+				case "revision-channels":
+					chs, _, err = nd.coll.getRevisionChannels(nd.ctx, ds.id, ds.rev)
+				}
+				if err != nil {
+					continue
+				}
+				got, _, _ := c16ChanIndex(chs, ds.id)
+				run.Count("reads_judged", 1)
+				run.Count("scripted_reads_judged", 1)
+				run.Count("gap_script_reads_judged", 1)
+				if got < seen {
+					run.Violation("no-stale-read-after-invalidation", "C16|invalidation|scripted|update-arrives-behind-sequence-gap|"+nd.name+"|later-read-serves-stale-channels",
+						fmt.Sprintf("doc %s rev %s: update %d (channel c%d-%s) was imported at sequence %d while sequence %d was reserved and unused; both change caches parked the mutation as pending, the reserved sequence was released, and the change caches moved past %d; a %s on the %s started afterwards returned the channels of update %d: %v", ds.id, ds.rev, k, k, ds.id, seq, hold, seq, kind, nd.name, got, chs.ToArray()),
+						map[string]any{"round": round, "doc": ds.id, "rev": ds.rev, "script": []string{
+							"Get(doc, rev) on the nodes " + fmt.Sprint(resident) + " (revision resident with the channels of update 2)",
+							fmt.Sprintf("reserve sequence %d on the writer node and keep it", hold),
+							fmt.Sprintf("raw user-xattr write (update %d), on-demand import on the writer node (no new revision) at sequence %d", k, seq),
+							"wait until both change caches hold that mutation in pendingLogs with nextSequence <= the reserved sequence",
+							fmt.Sprintf("release sequence %d as unused; wait until both change caches' nextSequence > %d", hold, seq),
+							kind + " on the " + nd.name + " returns update " + fmt.Sprint(got),
+						}})
+				}
+			}
+		}
+	}
 	run.Eval()
 	run.Nontrivial(fmt.Sprintf("round%d", round))
 	if round == 0 {
